@@ -16,10 +16,11 @@ NA_OVERRIDES = {}
 props = [json.loads(l) for l in open(os.path.join(HERE, "properties.jsonl"))]
 checks = []
 na = []
+READY = set(open(os.path.join(HERE, "checks", "READY")).read().split())
 for p in props:
     pid = p["id"]
     path = os.path.join(HERE, "checks", pid.lower() + ".py")
-    if not os.path.exists(path) or pid in NA_OVERRIDES:
+    if not os.path.exists(path) or pid in NA_OVERRIDES or pid not in READY:
         na.append({"property_id": pid, "reason": NA_OVERRIDES.get(pid, NOT_BUILT)})
         continue
     mod = importlib.import_module("checks." + pid.lower())
